@@ -119,7 +119,7 @@ func checkHistory(c Case) *pk.Failure {
 			if !hs.Conforms(got.Ret.V, s.Ret) {
 				return pk.Failf("history", "ret-type", "%s: return value %s does not have the declared type %s\n%s", where, hs.Display(got.Ret.V), s.Ret.Canon(), text())
 			}
-			if !hs.Equal(got.Ret.V, s.ExpRet.V) {
+			if !hs.Same(got.Ret.V, s.ExpRet.V) {
 				return pk.Failf("history", "ret-value", "%s: returned %s, expected %s\n%s", where, hs.Display(got.Ret.V), hs.Display(s.ExpRet.V), text())
 			}
 		}
